@@ -491,7 +491,13 @@ func (r *Runner) builtin(ctx context.Context, pos syntax.Pos, name string, args 
 		}
 		defer f.Close()
 		p := syntax.NewParser()
-		file, err := p.Parse(f, path)
+		file, err := p.Parse(readerFunc(func(p []byte) (int, error) {
+			// The file may never end, such as /dev/zero or a fifo.
+			if err := ctx.Err(); err != nil {
+				return 0, err
+			}
+			return f.Read(p)
+		}), path)
 		if err != nil {
 			return failf(1, "source: %v\n", err)
 		}
